@@ -49,7 +49,43 @@ type c11Cfg struct {
 	MaxRows    int64
 	Bloom      map[string]uint // leaf path -> bits per value
 	DeferBloom bool            // DeferBloomFiltersWithBuffers: filters are written at the end of the file
+	Enc        bool                 // the files written under this configuration are encrypted (WithEncryption)
+	Dec        []parquet.FileOption // what OpenFile needs to read them
 	Desc       string
+}
+
+// key retriever of the encryption class: one footer key, optional per-column keys
+type c11Keys struct {
+	footer []byte
+	cols   map[string][]byte
+}
+
+func (k c11Keys) FooterKey([]byte) ([]byte, error) { return k.footer, nil }
+func (k c11Keys) ColumnKey(path []string, _ []byte) ([]byte, error) {
+	if v, ok := k.cols[strings.Join(path, ".")]; ok {
+		return v, nil
+	}
+	return k.footer, nil
+}
+
+// c11Encrypted returns cfg with modular encryption switched on (footer key for every column or
+// one column under its own key; encrypted or plaintext footer)
+func c11Encrypted(r *rand.Rand, cfg *c11Cfg, schema *parquet.Schema) *c11Cfg {
+	keys := c11Keys{footer: []byte("0123456789abcdef"), cols: map[string][]byte{}}
+	ec := &parquet.EncryptionConfig{FooterKey: keys.footer, EncryptedFooter: r.Intn(2) == 0, FileIdentifier: []byte("c11-file")}
+	desc := fmt.Sprintf(" encrypted(footer=%v", ec.EncryptedFooter)
+	if cols := schema.Columns(); len(cols) > 0 && r.Intn(2) == 0 {
+		p := strings.Join(cols[r.Intn(len(cols))], ".")
+		keys.cols[p] = []byte("fedcba9876543210")
+		ec.ColumnKeys = map[string][]byte{p: keys.cols[p]}
+		desc += " columnkey=" + p
+	}
+	nc := *cfg
+	nc.Opts = append(append([]parquet.WriterOption{}, cfg.Opts...), parquet.WithEncryption(ec))
+	nc.Enc = true
+	nc.Dec = []parquet.FileOption{parquet.WithDecryption(keys)}
+	nc.Desc = cfg.Desc + desc + ")"
+	return &nc
 }
 
 var c11Encodings = map[parquet.Kind][]encoding.Encoding{
@@ -147,7 +183,7 @@ func c11RandCfg(r *rand.Rand, schema *parquet.Schema) *c11Cfg {
 
 // c11CfgLike returns B as a copy of A (so that the verbatim path is eligible) with a few axes re-drawn.
 func c11CfgLike(r *rand.Rand, a *c11Cfg, schema *parquet.Schema) *c11Cfg {
-	c := &c11Cfg{Base: a.Base, Opts: append([]parquet.WriterOption{}, a.Opts...), Stats: a.Stats, IndexLimit: a.IndexLimit, MaxRows: a.MaxRows, Bloom: a.Bloom, DeferBloom: a.DeferBloom}
+	c := &c11Cfg{Base: a.Base, Opts: append([]parquet.WriterOption{}, a.Opts...), Stats: a.Stats, IndexLimit: a.IndexLimit, MaxRows: a.MaxRows, Bloom: a.Bloom, DeferBloom: a.DeferBloom, Enc: a.Enc, Dec: a.Dec}
 	var extra []string
 	switch r.Intn(6) {
 	case 0:
@@ -185,6 +221,7 @@ type c11Page struct {
 	NullPage           bool
 	NullCount          int64
 	MinLen, MaxLen     int
+	MaxFF              int // number of leading 0xFF bytes of the column index max value
 }
 
 type c11Chunk struct {
@@ -203,6 +240,12 @@ type c11Chunk struct {
 	DictOff, DataOff     int64
 	TotalC, TotalU       int64
 	Locs                 [][3]int64 // offset, compressed size, first row index
+	// value-carrying metadata (column index, size statistics, statistics, encoding statistics) in
+	// the text of the `copy.splicev` op (SpliceMeta.lean)
+	Values               string
+	PageErr              string // a page location of the offset index does not lead to a page header
+	// the row group entry the chunk belongs to: file_offset, total_byte_size, total_compressed_size
+	RG                   [3]int64
 }
 
 func (p c11Page) trivial() bool { return !p.NullPage && p.NullCount == 0 && p.MinLen == 0 && p.MaxLen == 0 }
@@ -216,7 +259,9 @@ func b2i(b bool) int {
 
 // c11FileInfo extracts, from the footer, the page index and the page headers, what the copy
 // predicates read and what the settings oracle checks. Indexed [row group][column].
-func c11FileInfo(file []byte, f *parquet.File) (out [][]c11Chunk, err error) {
+func c11FileInfo(file []byte, f *parquet.File, encrypted ...bool) (out [][]c11Chunk, err error) {
+	// page headers (and bloom filter headers) of an encrypted file cannot be parsed from the raw bytes
+	parsePages := len(encrypted) == 0 || !encrypted[0]
 	defer func() {
 		if r := recover(); r != nil {
 			err = fmt.Errorf("PANIC: %v", r)
@@ -232,7 +277,7 @@ func c11FileInfo(file []byte, f *parquet.File) (out [][]c11Chunk, err error) {
 			m := &cc.MetaData
 			c := c11Chunk{Type: int(m.Type), Codec: int(m.Codec), CIOff: cc.ColumnIndexOffset, OIOff: cc.OffsetIndexOffset,
 				BloomOff: m.BloomFilterOffset, BloomLen: m.BloomFilterLength, NumValues: m.NumValues, NullCount: m.Statistics.NullCount,
-				Rows: rg.NumRows, HasDict: m.DictionaryPageOffset != 0,
+				Rows: rg.NumRows, HasDict: m.DictionaryPageOffset != 0, RG: [3]int64{rg.FileOffset, rg.TotalByteSize, rg.TotalCompressedSize},
 				DictOff: m.DictionaryPageOffset, DataOff: m.DataPageOffset, TotalC: m.TotalCompressedSize, TotalU: m.TotalUncompressedSize,
 				// an empty byte string bound is present (non-nil, length 0); absent bounds decode as nil
 				HasMinMax: m.Statistics.MinValue != nil || m.Statistics.MaxValue != nil,
@@ -240,7 +285,7 @@ func c11FileInfo(file []byte, f *parquet.File) (out [][]c11Chunk, err error) {
 			for _, s := range m.EncodingStats {
 				c.EncStats = append(c.EncStats, [3]int{int(s.PageType), int(s.Encoding), int(s.Count)})
 			}
-			if c.BloomOff != 0 && c.BloomLen > 0 && c.BloomOff+int64(c.BloomLen) <= int64(len(file)) {
+			if parsePages && c.BloomOff != 0 && c.BloomLen > 0 && c.BloomOff+int64(c.BloomLen) <= int64(len(file)) {
 				var h format.BloomFilterHeader
 				p := thrift.CompactProtocol{}
 				if e := thrift.NewDecoder(p.NewReader(bytes.NewReader(file[c.BloomOff : c.BloomOff+int64(c.BloomLen)]))).Decode(&h); e == nil {
@@ -250,7 +295,10 @@ func c11FileInfo(file []byte, f *parquet.File) (out [][]c11Chunk, err error) {
 					c.BloomHdr = &[4]int{int(h.NumBytes), b2i(split), b2i(xx), b2i(unc)}
 				}
 			}
-			if k < len(ois) && k < len(cis) {
+			if k < len(cis) {
+				c.Values = c11Values(m, &cis[k])
+			}
+			if parsePages && k < len(ois) && k < len(cis) {
 				cix := &cis[k]
 				for pi, loc := range ois[k].PageLocations {
 					c.Locs = append(c.Locs, [3]int64{loc.Offset, int64(loc.CompressedPageSize), loc.FirstRowIndex})
@@ -258,10 +306,12 @@ func c11FileInfo(file []byte, f *parquet.File) (out [][]c11Chunk, err error) {
 					p := thrift.CompactProtocol{}
 					end := loc.Offset + int64(loc.CompressedPageSize)
 					if loc.Offset < 0 || end > int64(len(file)) {
-						return nil, fmt.Errorf("page location outside the file")
+						c.PageErr = "page location outside the file"
+						continue
 					}
 					if e := thrift.NewDecoder(p.NewReader(bytes.NewReader(file[loc.Offset:end]))).Decode(&h); e != nil {
-						return nil, fmt.Errorf("page header: %w", e)
+						c.PageErr = fmt.Sprintf("page header: %v", e)
+						continue
 					}
 					pg := c11Page{Type: int(h.Type)}
 					var st format.Statistics
@@ -282,6 +332,9 @@ func c11FileInfo(file []byte, f *parquet.File) (out [][]c11Chunk, err error) {
 					}
 					if pi < len(cix.MaxValues) {
 						pg.MaxLen = len(cix.MaxValues[pi])
+						for pg.MaxFF < pg.MaxLen && cix.MaxValues[pi][pg.MaxFF] == 0xFF {
+							pg.MaxFF++
+						}
 					}
 					c.Pages = append(c.Pages, pg)
 				}
@@ -352,14 +405,17 @@ type c11Env struct {
 	chunkOf map[*parquet.FileColumnChunk]*c11Chunk // metadata of every source file chunk
 }
 
-func (env *c11Env) open(file []byte, rows reflect.Value) (*c11File, error) {
-	f, err := parquet.OpenFile(bytes.NewReader(file), int64(len(file)))
+func (env *c11Env) open(file []byte, rows reflect.Value, dec ...parquet.FileOption) (*c11File, error) {
+	f, err := parquet.OpenFile(bytes.NewReader(file), int64(len(file)), dec...)
 	if err != nil {
 		return nil, err
 	}
-	info, err := c11FileInfo(file, f)
+	info, err := c11FileInfo(file, f, len(dec) > 0)
 	if err != nil {
 		return nil, err
+	}
+	if e := c11PageErr(info); e != "" {
+		return nil, fmt.Errorf("%s", e)
 	}
 	cf := &c11File{bytes: file, f: f, info: info, rgs: f.RowGroups()}
 	start := 0
@@ -670,6 +726,28 @@ func c11Summarise(info [][]c11Chunk, ncol int) []c11ColSummary {
 	return out
 }
 
+// c11OverLimit counts the column index entries of column ci that are longer than the limit although
+// a shorter bound exists: any min value; a max value whose first `lim` bytes are not all 0xFF
+func c11OverLimit(info [][]c11Chunk, ci, lim int) (n int, example string) {
+	if lim <= 0 {
+		return
+	}
+	for gi, rg := range info {
+		if ci >= len(rg) || (rg[ci].Type != int(format.ByteArray) && rg[ci].Type != int(format.FixedLenByteArray)) {
+			continue
+		}
+		for pi, p := range rg[ci].Pages {
+			if p.MinLen > lim || (p.MaxLen > lim && p.MaxFF < lim) {
+				if n == 0 {
+					example = fmt.Sprintf("row group %d page %d: min %d bytes, max %d bytes", gi, pi, p.MinLen, p.MaxLen)
+				}
+				n++
+			}
+		}
+	}
+	return
+}
+
 func keys[K comparable](m map[K]bool) string {
 	var xs []string
 	for k := range m {
@@ -740,6 +818,12 @@ func c11Settings(b *c11Cfg, got, ref [][]c11Chunk, ncol int) (aspects []string, 
 		}
 		if g[ci].maxIdxLen > b.IndexLimit && g[ci].maxIdxLen > r[ci].maxIdxLen {
 			stat = append(stat, fmt.Sprintf("index-limit %s: column index value of %d bytes, limit %d, longest on the row path %d", col, g[ci].maxIdxLen, b.IndexLimit, r[ci].maxIdxLen))
+		} else if n, ex := c11OverLimit(got, ci, b.IndexLimit); n > 0 {
+			// entry by entry: a value longer than the limit that could have been shortened (a lower
+			// bound always can; an upper bound unless its first `limit` bytes are all 0xFF)
+			if rn, _ := c11OverLimit(ref, ci, b.IndexLimit); rn == 0 {
+				stat = append(stat, fmt.Sprintf("index-limit %s: %d column index values exceed the limit %d although they can be shortened (%s); none on the row path", col, n, b.IndexLimit, ex))
+			}
 		}
 		if !subset(g[ci].colIndex, r[ci].colIndex) {
 			stat = append(stat, fmt.Sprintf("column-index-presence %s: column index present {%s} row path {%s}", col, keys(g[ci].colIndex), keys(r[ci].colIndex)))
@@ -763,13 +847,13 @@ func c11Settings(b *c11Cfg, got, ref [][]c11Chunk, ncol int) (aspects []string, 
 }
 
 // rowsOfFile reads every row of a file as canonical text (for multiset comparison)
-func rowsOfFile(file []byte) (out []string, err error) {
+func rowsOfFile(file []byte, dec ...parquet.FileOption) (out []string, err error) {
 	defer func() {
 		if r := recover(); r != nil {
 			err = fmt.Errorf("PANIC: %v", r)
 		}
 	}()
-	f, err := parquet.OpenFile(bytes.NewReader(file), int64(len(file)))
+	f, err := parquet.OpenFile(bytes.NewReader(file), int64(len(file)), dec...)
 	if err != nil {
 		return nil, err
 	}
@@ -815,8 +899,8 @@ func (c *c11Case) compareRows(tieDependent bool, refCols, gotCols [][]gen.Triple
 	if c.kind == "merged-dedup" {
 		return true, ""
 	}
-	a, err1 := rowsOfFile(ref)
-	b, err2 := rowsOfFile(got)
+	a, err1 := rowsOfFile(ref, c.b.Dec...)
+	b, err2 := rowsOfFile(got, c.b.Dec...)
 	if err1 != nil || err2 != nil {
 		return false, fmt.Sprintf("rows unreadable: %v %v", err1, err2)
 	}
@@ -912,10 +996,10 @@ func c11SpliceL2(ctx *core.Ctx, env *c11Env, d interface {
 					bl = int64(src.BloomLen)
 				}
 			}
-			req = append(req, src.layoutText(bl, true))
-			want = append(want, og[ci].layoutText(0, false))
+			req = append(req, src.layoutText(bl, true)+"~"+src.Values)
+			want = append(want, og[ci].layoutText(0, false)+"~"+og[ci].Values)
 			if c.b.DeferBloom {
-				req[len(req)-1] = src.layoutText(0, true) // written by writeDeferredBloomFilters at the end of the file
+				req[len(req)-1] = src.layoutText(0, true) + "~" + src.Values // written by writeDeferredBloomFilters at the end of the file
 				blooms = append(blooms, "n")
 			} else if og[ci].BloomOff != 0 {
 				blooms = append(blooms, fmt.Sprintf("%d.%d", og[ci].BloomOff, og[ci].BloomLen))
@@ -923,8 +1007,8 @@ func c11SpliceL2(ctx *core.Ctx, env *c11Env, d interface {
 				blooms = append(blooms, "n")
 			}
 		}
-		reqs = append(reqs, fmt.Sprintf("copy.splice %d %s", start, strings.Join(req, ";")))
-		wants = append(wants, "ok "+strings.Join(want, ";")+" "+strings.Join(blooms, ","))
+		reqs = append(reqs, fmt.Sprintf("copy.splicev %d %s", start, strings.Join(req, ";")))
+		wants = append(wants, "ok "+strings.Join(want, ";")+" "+strings.Join(blooms, ",")+fmt.Sprintf(" rg=%d,%d,%d,%d", og[0].RG[0], og[0].RG[1], og[0].RG[2], og[0].Rows))
 	}
 	if len(reqs) == 0 {
 		return
@@ -937,10 +1021,39 @@ func c11SpliceL2(ctx *core.Ctx, env *c11Env, d interface {
 	for i, a := range ans {
 		ctx.Hist("splice-mirror-compared", "row-group")
 		if a != wants[i] {
-			ctx.Fail("L2", "splice-metadata-vs-mirror", "the metadata of a spliced row group differs from the Lean splice of the source's metadata",
-				detail(map[string]any{"request": reqs[i], "model": a, "library": wants[i]}))
+			key, what := "splice-metadata-vs-mirror", "the metadata of a spliced row group differs from the Lean splice of the source's metadata"
+			if c11LayoutOnly(a) == c11LayoutOnly(wants[i]) {
+				key, what = "splice-values-vs-mirror", "the column index / size statistics / statistics / encoding statistics of a spliced row group differ from the Lean splice (SpliceMeta.spliceRowGroupBlooms) of the source's"
+			}
+			ctx.Fail("L2", key, what, detail(map[string]any{"request": reqs[i], "model": a, "library": wants[i]}))
 		}
 	}
+}
+
+func c11PageErr(info [][]c11Chunk) string {
+	for gi, rg := range info {
+		for ci := range rg {
+			if rg[ci].PageErr != "" {
+				return fmt.Sprintf("row group %d column %d: %s", gi, ci, rg[ci].PageErr)
+			}
+		}
+	}
+	return ""
+}
+
+// c11LayoutOnly strips the value parts (`~...`) of a `copy.splicev` answer
+func c11LayoutOnly(ans string) string {
+	f := strings.Fields(ans)
+	if len(f) != 4 {
+		return ans
+	}
+	chunks := strings.Split(f[1], ";")
+	for i, c := range chunks {
+		if j := strings.IndexByte(c, '~'); j >= 0 {
+			chunks[i] = c[:j]
+		}
+	}
+	return f[0] + " " + strings.Join(chunks, ";") + " " + f[2] + " " + f[3]
 }
 
 // c11Split: the row groups n buffered rows are flushed as
@@ -956,13 +1069,13 @@ func c11Split(n, maxRows int64) (out []int64) {
 }
 
 // c11BloomMisses: every value stored in a chunk that carries a bloom filter must be found by it
-func c11BloomMisses(file []byte) (misses []string, err error) {
+func c11BloomMisses(file []byte, dec ...parquet.FileOption) (misses []string, err error) {
 	defer func() {
 		if r := recover(); r != nil {
 			err = fmt.Errorf("PANIC: %v", r)
 		}
 	}()
-	f, err := parquet.OpenFile(bytes.NewReader(file), int64(len(file)))
+	f, err := parquet.OpenFile(bytes.NewReader(file), int64(len(file)), dec...)
 	if err != nil {
 		return nil, err
 	}
@@ -1181,20 +1294,20 @@ func c11Run(ctx *core.Ctx, env *c11Env, d interface {
 	}
 
 	// ---- L1a: same rows, same order
-	refCols, err := gen.ReadColumns(ref)
+	refCols, err := gen.ReadColumns(ref, c.b.Dec...)
 	if err != nil {
 		ctx.Fail("L1", "row-path-unreadable "+sig+" "+errClass(err), "the one-by-one file cannot be read back: "+err.Error(), detail(nil))
 		return
 	}
-	outCols, err := gen.ReadColumns(out.file)
+	outCols, err := gen.ReadColumns(out.file, c.b.Dec...)
 	if err != nil {
 		ctx.Fail("L1", "output-unreadable "+sig+" "+errClass(err), "the file written through WriteRowGroup cannot be read back: "+err.Error(), detail(map[string]any{"copied_chunks": out.copyN, "reencoded_row_groups": out.reencN}))
 		return
 	}
 	pathSig := fmt.Sprintf("copy=%v reencode=%v", out.copyN > 0, out.reencN > 0)
 	// the output must be readable row by row (the row reader insists on pages starting at a row)
-	if _, _, err := gen.ReadRowsColumns(out.file, 64); err != nil {
-		if _, _, rerr := gen.ReadRowsColumns(ref, 64); rerr != nil {
+	if _, _, err := gen.ReadRowsColumns(out.file, 64, c.b.Dec...); err != nil {
+		if _, _, rerr := gen.ReadRowsColumns(ref, 64, c.b.Dec...); rerr != nil {
 			ctx.Hist("row-path-file-unreadable-by-rows-too", c.kind)
 		} else {
 			ctx.Fail("L1", "output-rows-unreadable "+pathSig+" "+errClass(err), "the file written through WriteRowGroup cannot be read back row by row: "+err.Error(),
@@ -1202,7 +1315,7 @@ func c11Run(ctx *core.Ctx, env *c11Env, d interface {
 		}
 	}
 	// ... and accepted by the Lean spec reader of C02 (structure, page/row alignment, counts)
-	if d != nil {
+	if d != nil && !c.b.Enc { // the Lean reader does not decrypt
 		if why := c11SpecCheck(d, out.file, c.b.MaxRows); why != "" {
 			if c11SpecCheck(d, ref, c.b.MaxRows) != "" {
 				ctx.Hist("row-path-file-rejected-by-spec-reader-too", c02Class(why))
@@ -1234,7 +1347,7 @@ func c11Run(ctx *core.Ctx, env *c11Env, d interface {
 		ctx.Fail("L1", "rows-differ "+sig+" "+pathSig, "WriteRowGroup stored other rows than Rows() yields: "+desc,
 			detail(map[string]any{"copied_chunks": out.copyN, "reencoded_row_groups": out.reencN}))
 	}
-	offCols, err := gen.ReadColumns(off.file)
+	offCols, err := gen.ReadColumns(off.file, c.b.Dec...)
 	if err != nil {
 		ctx.Fail("L1", "output-unreadable(disabled) "+sig+" "+errClass(err), "the file written with both fast paths disabled cannot be read back: "+err.Error(), detail(nil))
 	} else if same, desc := c.compareRows(tieDependent, refCols, offCols, ref, off.file); !same {
@@ -1279,21 +1392,73 @@ func c11Run(ctx *core.Ctx, env *c11Env, d interface {
 	}
 
 	// ---- L1b: B's settings honoured
-	fo, err1 := parquet.OpenFile(bytes.NewReader(out.file), int64(len(out.file)))
-	fr, err2 := parquet.OpenFile(bytes.NewReader(ref), int64(len(ref)))
+	fo, err1 := parquet.OpenFile(bytes.NewReader(out.file), int64(len(out.file)), c.b.Dec...)
+	fr, err2 := parquet.OpenFile(bytes.NewReader(ref), int64(len(ref)), c.b.Dec...)
 	if err1 != nil || err2 != nil {
 		ctx.Fail("L1", "output-unopenable "+sig, fmt.Sprintf("OpenFile failed: %v %v", err1, err2), detail(nil))
 		return
 	}
-	outInfo, err1 := c11FileInfo(out.file, fo)
-	refInfo, err2 := c11FileInfo(ref, fr)
+	// ---- L1d: the page index and the statistics of the output describe the pages it holds
+	// (parquet.thrift OffsetIndex / ColumnIndex / Statistics / SizeStatistics), as far as they do
+	// in the file written row by row
+	{
+		px := map[string]any{"copied_chunks": out.copyN, "reencoded_row_groups": out.reencN}
+		viol, derr := c11DescribeOracle(fo)
+		if derr != nil || len(viol) > 0 {
+			refViol, rerr := c11DescribeOracle(fr)
+			switch {
+			case rerr != nil:
+				ctx.Hist("row-path-file-pages-unreadable-too", c.kind)
+			case derr != nil:
+				ctx.Fail("L1", "output-pages-unreadable "+pathSig+" "+errClass(derr), "the pages of the file written through WriteRowGroup cannot be read one after the other: "+derr.Error(), detail(px))
+			default:
+				for _, aspect := range sortedKeys(viol) {
+					if _, too := refViol[aspect]; too {
+						ctx.Hist("metadata-does-not-describe-pages-on-row-path-too", aspect) // not specific to WriteRowGroup (C05)
+						continue
+					}
+					px["violated"] = viol[aspect]
+					ctx.Fail("L1", "metadata-does-not-describe-pages "+aspect+" "+pathSig,
+						"the metadata of a file written through WriteRowGroup does not describe the pages the file holds (it does in the file written row by row): "+viol[aspect], detail(px))
+				}
+			}
+		}
+		ctx.Hist("metadata-describes-pages-checked", pathSig)
+	}
+	outInfo, err1 := c11FileInfo(out.file, fo, c.b.Enc)
+	refInfo, err2 := c11FileInfo(ref, fr, c.b.Enc)
+	// an encrypted side never takes the verbatim path (pages sealed under another file's AAD / in
+	// the clear); stated here on the counters alone, the mirror comparison follows below
+	srcEnc := false
+	for _, s := range c.srcs {
+		for _, cc := range s.rg.ColumnChunks() {
+			if fc, ok := cc.(*parquet.FileColumnChunk); ok && parquet.VerifSourceEncrypted(fc) {
+				srcEnc = true
+			}
+		}
+	}
+	if c.b.Enc || srcEnc {
+		ctx.Hist("encryption", fmt.Sprintf("source=%v destination=%v %s", srcEnc, c.b.Enc, pathSig))
+		if out.copyN != 0 && (c.b.Enc || c.kind == "file" || c.kind == "range") {
+			ctx.Fail("L2", "verbatim-copy-with-an-encrypted-side", fmt.Sprintf("%d chunks were copied verbatim although the source or the destination is encrypted", out.copyN), detail(nil))
+		}
+	}
 	if err1 != nil || err2 != nil {
 		ctx.Fail("L1", "output-metadata-unreadable "+sig, fmt.Sprintf("page headers / indexes unreadable: %v %v", err1, err2), detail(nil))
+		return
+	}
+	if e := c11PageErr(refInfo); e != "" {
+		ctx.Fail("L1", "output-metadata-unreadable "+sig, "page headers / indexes of the file written row by row unreadable: "+e, detail(nil))
 		return
 	}
 	ncol := len(c.schema.Columns())
 	aspects, stat := c11Settings(c.b, outInfo, refInfo, ncol)
 	extra := map[string]any{"copied_chunks": out.copyN, "reencoded_row_groups": out.reencN, "output_row_groups": rowGroupSizes(outInfo)}
+	if e := c11PageErr(outInfo); e != "" {
+		// the settings oracle needs every page header; the L2 comparison below still runs
+		ctx.Fail("L1", "output-metadata-unreadable "+sig, "page headers / indexes unreadable: a page location of the output's offset index does not lead to a page header: "+e, detail(extra))
+		aspects, stat = nil, nil
+	}
 	for _, a := range aspects {
 		extra["violated"] = a
 		ctx.Fail("L1", "setting-not-honoured "+aspectClass(a)+" "+pathSig, "the destination writer's setting is not honoured by WriteRowGroup: "+a, detail(extra))
@@ -1311,11 +1476,34 @@ func c11Run(ctx *core.Ctx, env *c11Env, d interface {
 
 	// ---- L1c: configured bloom filters contain every stored value
 	if len(c.b.Bloom) > 0 {
-		misses, err := c11BloomMisses(out.file)
+		paths := c.schema.Columns()
+		for _, rg := range outInfo {
+			for ci := range rg {
+				if ci >= len(paths) {
+					continue
+				}
+				if _, has := c.b.Bloom[strings.Join(paths[ci], ".")]; !has || rg[ci].BloomOff == 0 {
+					continue
+				}
+				dictPages, plainPages := 0, 0
+				for _, p := range rg[ci].Pages {
+					switch p.Enc {
+					case int(format.RLEDictionary), int(format.PlainDictionary):
+						dictPages++
+					case int(format.Plain):
+						plainPages++
+					}
+				}
+				if rg[ci].HasDict && dictPages > 0 && plainPages > 0 {
+					ctx.Hist("bloom-filter-on-chunk-with-dictionary-fallback-mid-chunk", pathSig)
+				}
+			}
+		}
+		misses, err := c11BloomMisses(out.file, c.b.Dec...)
 		if err != nil {
 			ctx.Fail("L1", "bloom-filter-unreadable "+sig+" "+errClass(err), "bloom filters of the output cannot be checked: "+err.Error(), detail(extra))
 		} else if len(misses) > 0 {
-			if refMisses, _ := c11BloomMisses(ref); len(refMisses) > 0 {
+			if refMisses, _ := c11BloomMisses(ref, c.b.Dec...); len(refMisses) > 0 {
 				ctx.Hist("bloom-miss-on-row-path-too", c.kind) // not specific to WriteRowGroup (C07)
 			} else {
 				extra["missed"] = misses
@@ -1362,8 +1550,16 @@ func c11Run(ctx *core.Ctx, env *c11Env, d interface {
 			}
 		}
 		if wantCopy != out.copyN || wantReenc != out.reencN {
+			var over []string
+			for ci := 0; ci < ncol; ci++ {
+				gn, gex := c11OverLimit(outInfo, ci, c.b.IndexLimit)
+				rn, _ := c11OverLimit(refInfo, ci, c.b.IndexLimit)
+				if gn > 0 || rn > 0 {
+					over = append(over, fmt.Sprintf("col%d: output %d (%s), row path %d", ci, gn, gex, rn))
+				}
+			}
 			ctx.Fail("L2", "path-counters-vs-mirror "+sig, fmt.Sprintf("the library took copy=%d reencode=%d, the Lean mirror predicts copy=%d reencode=%d (paths %v)", out.copyN, out.reencN, wantCopy, wantReenc, paths),
-				detail(map[string]any{"requests": reqs, "answers": ans}))
+				detail(map[string]any{"requests": reqs, "answers": ans, "column_index_values_over_the_limit": over}))
 		} else if c11AllVerbatim(paths) && c.prefix == 0 && c.kind == "file" {
 			c11SpliceL2(ctx, env, d, c, outInfo, detail)
 		}
@@ -1427,7 +1623,17 @@ func c11WriteFile(e *gen.Entry, rows reflect.Value, cfg *c11Cfg, extra ...parque
 
 var c11KindNames = []string{"file", "buffer", "range", "multi", "merged-unsorted", "merged-sorted", "merged-dedup", "dedup", "converted", "foreign", "foreign-skip", "multi-wrapper", "merged-packed", "multi-nested"}
 
-func c11Build(ctx *core.Ctx, env *c11Env, e *gen.Entry, r *rand.Rand, kind string, n int) *c11Case {
+// c11BuildOpt: forced axes of a built case (nil = everything drawn at random)
+type c11BuildOpt struct {
+	tweakA func(a *c11Cfg)                       // applied to the source configuration before any source is written
+	makeB  func(r *rand.Rand, a *c11Cfg) *c11Cfg // destination configuration
+}
+
+func c11Build(ctx *core.Ctx, env *c11Env, e *gen.Entry, r *rand.Rand, kind string, n int, opts ...*c11BuildOpt) *c11Case {
+	var opt *c11BuildOpt
+	if len(opts) > 0 {
+		opt = opts[0]
+	}
 	prof := &gen.Profile{NullProb: []float64{0.1, 0.5}[r.Intn(2)], MaxLen: 1 + r.Intn(3), SmallDomain: r.Intn(2) == 0}
 	if n >= 400 { // repeated columns beyond the 1024-value batches of the column-oriented re-encode path
 		prof.NullProb, prof.MaxLen = 0.1, 3+r.Intn(2)
@@ -1435,12 +1641,17 @@ func c11Build(ctx *core.Ctx, env *c11Env, e *gen.Entry, r *rand.Rand, kind strin
 	rows := e.NewRows(n)
 	gen.FillRows(r, rows, prof)
 	a := c11RandCfg(r, e.Schema)
+	if opt != nil && opt.tweakA != nil {
+		opt.tweakA(a)
+	}
 	if a.MaxRows > 0 && a.MaxRows < 4 && n > 40 {
 		n = 40
 		rows = rows.Slice(0, n)
 	}
 	var b *c11Cfg
-	if r.Intn(2) == 0 {
+	if opt != nil && opt.makeB != nil {
+		b = opt.makeB(r, a)
+	} else if r.Intn(2) == 0 {
 		b = c11CfgLike(r, a, e.Schema)
 	} else {
 		b = c11RandCfg(r, e.Schema)
@@ -1462,7 +1673,7 @@ func c11Build(ctx *core.Ctx, env *c11Env, e *gen.Entry, r *rand.Rand, kind strin
 		if err != nil {
 			return nil
 		}
-		cf, err := env.open(file, rv)
+		cf, err := env.open(file, rv, cfg.Dec...)
 		if err != nil {
 			return nil
 		}
@@ -1812,6 +2023,47 @@ func c11Build(ctx *core.Ctx, env *c11Env, e *gen.Entry, r *rand.Rand, kind strin
 	return c
 }
 
+func c11HasBytesLeaf(schema *parquet.Schema) bool {
+	for _, p := range schema.Columns() {
+		if leaf, ok := schema.Lookup(p...); ok {
+			if k := leaf.Node.Type().Kind(); k == parquet.ByteArray || k == parquet.FixedLenByteArray {
+				return true
+			}
+		}
+	}
+	return false
+}
+
+// c11DictLeaves: non-boolean leaves whose schema asks for dictionary encoding
+func c11DictLeaves(schema *parquet.Schema) (out [][]string) {
+	for _, p := range schema.Columns() {
+		leaf, ok := schema.Lookup(p...)
+		if !ok || leaf.Node.Type().Kind() == parquet.Boolean {
+			continue
+		}
+		if enc := leaf.Node.Encoding(); enc != nil && enc.Encoding() == format.RLEDictionary {
+			out = append(out, p)
+		}
+	}
+	return
+}
+
+// c11FallbackBloom turns the destination of a built case into one whose dictionary-encoded column
+// `path` carries a bloom filter and overflows its dictionary in the middle of the chunk (small
+// DictionaryMaxBytes, small pages): the filter is pre-sized by WriteRowGroup and must contain the
+// values of the dictionary pages written before the switch to PLAIN as well as the later ones.
+func c11FallbackBloom(r *rand.Rand, c *c11Case, path []string) {
+	dm := []int64{48, 200, 1000}[r.Intn(3)]
+	pb := []int{48, 200}[r.Intn(2)]
+	bpv := []uint{8, 10, 16}[r.Intn(3)]
+	nb := *c.b
+	nb.Opts = append(append([]parquet.WriterOption{}, c.b.Opts...), parquet.DictionaryMaxBytes(dm), parquet.PageBufferSize(pb),
+		parquet.BloomFilters(parquet.SplitBlockFilter(bpv, path...)))
+	nb.Bloom = map[string]uint{strings.Join(path, "."): bpv}
+	nb.Desc = c.b.Desc + fmt.Sprintf(" | dictmax:=%d pagebuf:=%d bloom:=%d@%s (dictionary fallback under a pre-sized filter)", dm, pb, bpv, strings.Join(path, "."))
+	c.b = &nb
+}
+
 // F9 as a fixed case, run first: source with page statistics and ColumnIndexSizeLimit 64,
 // destination DataPageStatistics(false) and limit 8.
 func c11F9(ctx *core.Ctx, env *c11Env, d interface {
@@ -1860,7 +2112,7 @@ func RunC11(ctx *core.Ctx) {
 			c11F9(ctx, env, nil)
 		}
 	}
-	per := ctx.Scale(3, 36) // cases per (type, kind)
+	per := ctx.Scale(3, 28) // cases per (type, kind)
 	var wg sync.WaitGroup
 	sem := make(chan struct{}, 16)
 	for ei, e := range gen.Catalog {
@@ -1904,6 +2156,134 @@ func RunC11(ctx *core.Ctx) {
 						c11Run(ctx, env, nil, c, false)
 					} else {
 						c11Run(ctx, env, d, c, ei == 1 && k == 0 && ki < 4)
+					}
+				}
+			}
+			// the destination is the source configuration with a smaller ColumnIndexSizeLimit (source
+			// written with limit 64): the verbatim copy is eligible in every other respect
+			if c11HasBytesLeaf(e.Schema) {
+				rl := ctx.Rand("c11-limit/" + e.Name)
+				shrink := &c11BuildOpt{
+					tweakA: func(a *c11Cfg) {
+						a.IndexLimit = 64
+						a.Opts = append(a.Opts, parquet.ColumnIndexSizeLimit(func([]string) int { return 64 }))
+						a.Desc += " limit:=64"
+					},
+					makeB: func(r *rand.Rand, a *c11Cfg) *c11Cfg {
+						lim := []int{1, 2, 4, 8, 16}[r.Intn(5)]
+						nb := *a
+						nb.IndexLimit = lim
+						nb.Opts = append(append([]parquet.WriterOption{}, a.Opts...), parquet.ColumnIndexSizeLimit(func([]string) int { return lim }))
+						nb.Desc = a.Desc + fmt.Sprintf(" | like-A limit:=%d", lim)
+						return &nb
+					},
+				}
+				for _, kind := range []string{"file", "multi", "range"} {
+					for k := 0; k < ctx.Scale(2, 8); k++ {
+						env := &c11Env{chunkOf: map[*parquet.FileColumnChunk]*c11Chunk{}}
+						var c *c11Case
+						func() {
+							defer func() {
+								if rec := recover(); rec != nil {
+									ctx.Fail("L1", "panic-building-source kind="+kind, fmt.Sprintf("building the source row group panicked: %v", rec), map[string]any{"type": e.Name, "kind": kind})
+								}
+							}()
+							c = c11Build(ctx, env, e, rl, kind, []int{9, 33, 100}[rl.Intn(3)], shrink)
+						}()
+						if c == nil {
+							continue
+						}
+						ctx.Hist("destination-limit-below-source-limit", kind)
+						if d == nil {
+							c11Run(ctx, env, nil, c, false)
+						} else {
+							c11Run(ctx, env, d, c, false)
+						}
+					}
+				}
+			}
+			// modular encryption on the source, on the destination, or on both (same keys)
+			{
+				re := ctx.Rand("c11-encryption/" + e.Name)
+				for _, kind := range []string{"file", "range", "multi", "buffer", "merged-packed"} {
+					for k := 0; k < ctx.Scale(1, 4); k++ {
+						mode := re.Intn(3)
+						opt := &c11BuildOpt{
+							tweakA: func(a *c11Cfg) {
+								if mode != 1 {
+									*a = *c11Encrypted(re, a, e.Schema)
+								}
+							},
+							makeB: func(r *rand.Rand, a *c11Cfg) *c11Cfg {
+								var b *c11Cfg
+								switch {
+								case mode == 2: // same configuration and keys, possibly one axis changed
+									b = c11CfgLike(r, a, e.Schema)
+									b.Enc, b.Dec = a.Enc, a.Dec
+								case r.Intn(2) == 0:
+									plain := *a
+									if a.Enc { // A without its encryption option (the last one appended)
+										plain.Opts, plain.Enc, plain.Dec = a.Opts[:len(a.Opts)-1], false, nil
+										plain.Desc = a.Desc + " | like-A without encryption"
+									}
+									b = c11CfgLike(r, &plain, e.Schema)
+								default:
+									b = c11RandCfg(r, e.Schema)
+								}
+								if mode == 1 {
+									b = c11Encrypted(r, b, e.Schema)
+								}
+								return b
+							},
+						}
+						env := &c11Env{chunkOf: map[*parquet.FileColumnChunk]*c11Chunk{}}
+						var c *c11Case
+						func() {
+							defer func() {
+								if rec := recover(); rec != nil {
+									ctx.Fail("L1", "panic-building-source kind="+kind, fmt.Sprintf("building the source row group panicked: %v", rec), map[string]any{"type": e.Name, "kind": kind, "encryption_mode": mode})
+								}
+							}()
+							c = c11Build(ctx, env, e, re, kind, []int{3, 33, 100, 257}[re.Intn(4)], opt)
+						}()
+						if c == nil {
+							continue
+						}
+						if d == nil {
+							c11Run(ctx, env, nil, c, false)
+						} else {
+							c11Run(ctx, env, d, c, false)
+						}
+					}
+				}
+			}
+			// dictionary fallback in the middle of a chunk under a bloom filter, per dictionary leaf
+			rf := ctx.Rand("c11-fallback/" + e.Name)
+			for _, path := range c11DictLeaves(e.Schema) {
+				for _, kind := range []string{"buffer", "file", "multi", "merged-packed"} {
+					for k := 0; k < ctx.Scale(1, 6); k++ {
+						env := &c11Env{chunkOf: map[*parquet.FileColumnChunk]*c11Chunk{}}
+						var c *c11Case
+						func() {
+							defer func() {
+								if rec := recover(); rec != nil {
+									ctx.Fail("L1", "panic-building-source kind="+kind, fmt.Sprintf("building the source row group panicked: %v", rec), map[string]any{"type": e.Name, "kind": kind})
+								}
+							}()
+							c = c11Build(ctx, env, e, rf, kind, []int{130, 257, 600}[rf.Intn(3)])
+						}()
+						if c == nil {
+							continue
+						}
+						if _, ok := c.schema.Lookup(path...); !ok {
+							continue
+						}
+						c11FallbackBloom(rf, c, path)
+						if d == nil {
+							c11Run(ctx, env, nil, c, false)
+						} else {
+							c11Run(ctx, env, d, c, false)
+						}
 					}
 				}
 			}
